@@ -19,7 +19,7 @@ import json, math, os, shutil, signal, socket, sqlite3, subprocess, sys, threadi
 from concurrent.futures import ThreadPoolExecutor
 
 GROUPS_D1090 = {"C06": ["positions", "moving"], "C07": ["positions", "kinds"]}
-GROUPS = {"C06": ["positions", "positions-slow"], "C07": ["positions", "kinds"], "C10": ["dedup"], "C11": ["kinds"], "C12": ["positions", "kinds"]}
+GROUPS = {"C06": ["positions", "positions-slow"], "C07": ["positions", "kinds"], "C10": ["dedup"], "C11": ["kinds"], "C12": ["positions", "kinds", "expire"]}
 
 
 def haversine_m(lat1, lon1, lat2, lon2):
@@ -123,6 +123,8 @@ def run_scenario(exe, cat, sc, scratch, idx):
             cmd = [exe]
         else:
             cmd = [exe, "--output", out, "--deduplication", str(opt["dedup_ms"]), "--serve-port", str(wport)]
+            if opt.get("history_expire") is not None:
+                cmd += ["--history-expire", str(opt["history_expire"])]
             for x in opt["df_filter"] or []:
                 cmd += ["--df-filter", str(x)]
             for x in opt["aircraft_filter"] or []:
@@ -161,7 +163,7 @@ def run_scenario(exe, cat, sc, scratch, idx):
                         break
                     if dt >= 0.04:
                         heartbeat()
-                    time.sleep(min(0.04 if dt < 2.0 else 0.25, left))
+                    time.sleep(min(0.04 if dt < 0.5 else 0.25, left))
             r.t0 = time.time()
             heartbeat(); time.sleep(0.02)
             for n, e in enumerate(sc["events"]):
